@@ -8,7 +8,7 @@ import NmVerif.Lemmas.Reduce
   SPEC   `specShape`, `addressed`, `specReduceElem`, `accumAddressed`, `specAccumElem` (NumPy)
   Every theorem: any rank, any positive extents, any axis list NumPy accepts (negative entries, any order), keepdims
   either way, initial absent/present, element type and binary `op` ARBITRARY (no commutativity / associativity).
-  Only property statements (+ non-vacuity examples, counterexample of the known finding) live here.
+  Only property statements (+ non-vacuity examples) live here.
 -/
 namespace NmVerif.Props.C08
 open NmVerif NmVerif.Reduce
@@ -227,18 +227,20 @@ theorem stddev_eq_sqrt_var (add sub : α → α → α) (sqabs sqrt : α → α)
 /-- accumulate keeps the source shape -/
 theorem accumulate_shape (op : α → α → α) (a : Arr α) (axis : Int) : (accumulate op a axis).shape = a.shape := rfl
 
-/-- for `0 ≤ ax < dim` the view reads `d` with coordinate `ax` running over `0..d[ax]`, in that order -/
-theorem accumulate_reads_eq (s : Shape) (ax : Nat) (hax : ax < s.length) (d : Idx) (hd : InShape d s) :
-    accumulateReads s (ax : Int) d = accumAddressed ax d :=
-  accumulateReads_eq s ax hax d hd.length_eq
+/-- for every axis NumPy accepts (`-dim ≤ axis < dim`, negative = counted from the last axis) the view reads `d` with
+    coordinate `ax = axis mod dim` running over `0..d[ax]`, in that order -/
+theorem accumulate_reads_eq (s : Shape) (axis : Int) (hv : ValidAxis s.length axis) (d : Idx) (hd : InShape d s) :
+    accumulateReads s axis d = accumAddressed (normAxis s.length axis) d :=
+  accumulateReads_eq s axis hv d hd.length_eq
 
-/-- element `d` of the accumulate view = NumPy `op.accumulate`: the fold of `a[…, 0..d[ax], …]` -/
-theorem accumulate_eq_scan (op : α → α → α) (a : Arr α) (ax : Nat) (hax : ax < a.shape.length) (d : Idx)
+/-- element `d` of the accumulate view = NumPy `op.accumulate(a, axis)`: the fold of `a[…, 0..d[ax], …]`,
+    positive and negative axes alike -/
+theorem accumulate_eq_scan (op : α → α → α) (a : Arr α) (axis : Int) (hv : ValidAxis a.shape.length axis) (d : Idx)
     (hd : InShape d a.shape) :
-    accumulateElem op a (ax : Int) d = specAccumElem op a ax d := by
-  rw [accumulateElem_eq_reads, accumulateReads_eq a.shape ax hax d hd.length_eq]
+    accumulateElem op a axis d = specAccumElem op a (normAxis a.shape.length axis) d := by
+  rw [accumulateElem_eq_reads, accumulateReads_eq a.shape axis hv d hd.length_eq]
   simp only [specAccumElem]
-  cases accumAddressed ax d <;> rfl
+  cases accumAddressed (normAxis a.shape.length axis) d <;> rfl
 
 /-- … which is the *running* fold along the axis: first element copied, each next one `op(previous result, source)` -/
 theorem accumulate_running (op : α → α → α) (a : Arr α) (ax : Nat) (d : Idx) (hax : ax < d.length) :
@@ -255,43 +257,31 @@ theorem accumulate_running (op : α → α → α) (a : Arr α) (ax : Nat) (d : 
     simp [foldFirst, List.foldl_append]
 
 /-- every source index the accumulate view reads lies inside the source shape -/
-theorem accumulate_inBounds (s : Shape) (ax : Nat) (hax : ax < s.length) (d : Idx) (hd : InShape d s) :
-    ∃ r, accumulateReads s (ax : Int) d = some r ∧ ∀ i ∈ r, InShape i s := by
-  rw [accumulateReads_eq s ax hax d hd.length_eq]
+theorem accumulate_inBounds (s : Shape) (axis : Int) (hv : ValidAxis s.length axis) (d : Idx) (hd : InShape d s) :
+    ∃ r, accumulateReads s axis d = some r ∧ ∀ i ∈ r, InShape i s := by
+  rw [accumulateReads_eq s axis hv d hd.length_eq]
   have hlen := hd.length_eq
-  have hax' : ax < d.length := by omega
-  refine ⟨(List.range (d[ax] + 1)).map (fun x => d.set ax x), by simp [accumAddressed, hax'], ?_⟩
+  have hax' : normAxis s.length axis < d.length := by have := normAxis_lt hv; omega
+  refine ⟨(List.range (d[normAxis s.length axis] + 1)).map (fun x => d.set (normAxis s.length axis) x),
+    by simp [accumAddressed, hax'], ?_⟩
   intro i hi
   simp only [List.mem_map, List.mem_range] at hi
   obtain ⟨x, hx, rfl⟩ := hi
-  exact inShape_set_le s d ax d[ax] x hd (by simp [hax']) (by omega)
+  exact inShape_set_le s d _ d[normAxis s.length axis] x hd (by simp [hax']) (by omega)
 
 /-- `view::cumsum` = `accumulate(add_t)` -/
-theorem cumsum_eq_scan [Add α] (a : Arr α) (ax : Nat) (hax : ax < a.shape.length) (d : Idx)
+theorem cumsum_eq_scan [Add α] (a : Arr α) (axis : Int) (hv : ValidAxis a.shape.length axis) (d : Idx)
     (hd : InShape d a.shape) :
-    (cumsum a (ax : Int)).shape = a.shape ∧ (cumsum a (ax : Int)).get d = specAccumElem (· + ·) a ax d :=
-  ⟨rfl, accumulate_eq_scan _ a ax hax d hd⟩
+    (cumsum a axis).shape = a.shape ∧
+      (cumsum a axis).get d = specAccumElem (· + ·) a (normAxis a.shape.length axis) d :=
+  ⟨rfl, accumulate_eq_scan _ a axis hv d hd⟩
 
 /-- `view::cumprod` = `accumulate(multiply_t)` -/
-theorem cumprod_eq_scan [Mul α] (a : Arr α) (ax : Nat) (hax : ax < a.shape.length) (d : Idx)
+theorem cumprod_eq_scan [Mul α] (a : Arr α) (axis : Int) (hv : ValidAxis a.shape.length axis) (d : Idx)
     (hd : InShape d a.shape) :
-    (cumprod a (ax : Int)).shape = a.shape ∧ (cumprod a (ax : Int)).get d = specAccumElem (· * ·) a ax d :=
-  ⟨rfl, accumulate_eq_scan _ a ax hax d hd⟩
-
-/-! ### known finding `accumulate.negative-axis` (genuine defect of the unchanged code) -/
-
-/-- with a negative axis `accumulate_t` never widens a slice: every element is the source element itself -/
-theorem accumulate_negative_axis_is_identity (op : α → α → α) (a : Arr α) (axis : Int) (hneg : axis < 0) (d : Idx)
-    (hd : InShape d a.shape) :
-    accumulateElem op a axis d = some (a.get d) := by
-  rw [accumulateElem_eq_reads, accumulateReads_neg a.shape axis hneg d hd.length_eq]
-  rfl
-
-/-- … whereas NumPy folds along axis `ndim + axis`: witness `accumulate(f, [1,2], -1)` with `f(a,b) = 31a+b` -/
-theorem accumulate_negative_axis_counterexample :
-    accumulateElem (fun x y => 31 * x + y) (⟨[2], fun i => i.headD 0 + 1⟩ : Arr Nat) (-1) [1]
-      ≠ specAccumElem (fun x y => 31 * x + y) (⟨[2], fun i => i.headD 0 + 1⟩ : Arr Nat) (normAxis 1 (-1)) [1] := by
-  decide
+    (cumprod a axis).shape = a.shape ∧
+      (cumprod a axis).get d = specAccumElem (· * ·) a (normAxis a.shape.length axis) d :=
+  ⟨rfl, accumulate_eq_scan _ a axis hv d hd⟩
 
 /-! ### non-vacuity: the hypotheses are satisfiable on non-trivial values, and the statements say something -/
 
@@ -304,6 +294,9 @@ example : reduceReads [2,3,2] (some [-2]) false [1,0] = some [[1,0,0],[1,1,0],[1
 example : reduceElem (fun x y => 31 * x + y) none (Arr.iota [2,3,2]) (some [1]) false [1,0]
     = some ((6 * 31 + 8) * 31 + 10) := by decide
 example : accumulateElem (fun x y => 31 * x + y) (Arr.iota [2,3]) 1 [1,2] = some ((3 * 31 + 4) * 31 + 5) := by decide
+example : ValidAxis 2 (-1) ∧ normAxis 2 (-1) = 1 ∧ InShape [1,2] [2,3] := by decide
+example : accumulateElem (fun x y => 31 * x + y) (Arr.iota [2,3]) (-1) [1,2] = some ((3 * 31 + 4) * 31 + 5) := by decide
+example : accumulateReads [2,3] (-2) [1,2] = some [[0,2],[1,2]] := by decide
 example : ¬ ValidAxes 2 (some [0, -2]) ∧ ¬ ValidAxes 2 (some [2]) := by decide
 -- mean / var of the rows of [[1,2,3],[4,5,6]] over exact "rationals as (numerator, denominator)" would need a field;
 -- over Nat with truncating division the statements still compute: mean = [2,5], var (ddof 0) = [(1+0+1)/3, …] = [0,0]
